@@ -61,6 +61,20 @@ class Ctx:
 
 # ---------------------------------------------------------------- Go drivers
 
+def harness_dir(ctx):
+    """/verif/harness, or (development aid only: VERIF_REPO=<worktree>) a scratch copy of it whose go.mod replaces
+    oras-go by that worktree, so that a seeded change can be evaluated without touching /repo."""
+    alt = os.environ.get("VERIF_REPO")
+    if not alt:
+        return HARNESS
+    d = os.path.join(ctx.work, "harness")
+    if not os.path.exists(d):
+        shutil.copytree(HARNESS, d)
+        gm = open(os.path.join(d, "go.mod")).read().replace("=> /repo", "=> " + alt)
+        open(os.path.join(d, "go.mod"), "w").write(gm)
+    return d
+
+
 def go_sync_sum():
     """The harness module replaces oras-go by /repo; its go.sum must cover /repo's."""
     src = "/repo/go.sum"
@@ -90,7 +104,7 @@ def go_test(ctx, pkg, run, env, timeout=1800, tags="verif", race=False):
     if race:
         cmd.insert(2, "-race")
     t = time.time()
-    p = subprocess.run(cmd, cwd=HARNESS, env=e, stdout=subprocess.PIPE, stderr=subprocess.STDOUT, text=True,
+    p = subprocess.run(cmd, cwd=harness_dir(ctx), env=e, stdout=subprocess.PIPE, stderr=subprocess.STDOUT, text=True,
                        timeout=timeout + 60)
     if p.returncode != 0:
         raise Infra("driver %s/%s failed (exit %d):\n%s" % (pkg, run, p.returncode, p.stdout[-4000:]))
@@ -101,7 +115,7 @@ def go_build(ctx, pkg, out, tags="verif"):
     go_sync_sum()
     e = dict(os.environ)
     e.update(GOENV)
-    p = subprocess.run([GO, "build", "-tags", tags, "-o", out, "./%s/" % pkg], cwd=HARNESS, env=e,
+    p = subprocess.run([GO, "build", "-tags", tags, "-o", out, "./%s/" % pkg], cwd=harness_dir(ctx), env=e,
                        stdout=subprocess.PIPE, stderr=subprocess.STDOUT, text=True, timeout=900)
     if p.returncode != 0:
         raise Infra("build %s failed:\n%s" % (pkg, p.stdout[-4000:]))
@@ -224,6 +238,8 @@ def match_known(known, inv, sc):
 # ------------------------------------------------------------------ verdicts
 
 def write_replay(ctx, kind, inv, scenario, trace=None, extra=None):
+    if os.environ.get("VERIF_NOEVIDENCE") == "1":
+        return "(not written)"
     os.makedirs(os.path.join(VERIF, "replays"), exist_ok=True)
     body = {"property": ctx.pid, "kind": kind, "invariant": inv, "scenario": scenario, "trace": trace or [],
             "seed": ctx.seed, "tier": ctx.tier}
